@@ -126,6 +126,8 @@ class Msg:
             rlen = sum(a.get("parts", []))
         else:
             rlen = a.get("len", 0)
+            if a.get("fail_at") is not None:
+                rlen = a["fail_at"]          # a chunked response ends, well-formed, where its reader failed
         nobody = self.method == "HEAD" or (100 <= st < 200) or st in (204, 304)
         noframe = how == "writer" and len(a.get("parts", [])) == 0
         wflush = how == "writer" and a.get("flush", "never") in ("each", "last")
@@ -143,7 +145,8 @@ class Msg:
             "ishead": self.method == "HEAD",
             "j": {"cls": self.cls, "why": self.why, "last": bool(self.cls == "ok" and ref_last(self.version, conn_value)),
                   "bk": bk, "blen": self.body_len, "exp": bool(expects), "how": how, "st": st, "rlen": rlen,
-                  "nobody": bool(nobody), "wflush": bool(wflush), "noframe": bool(noframe)},
+                  "nobody": bool(nobody), "wflush": bool(wflush), "noframe": bool(noframe),
+                  "rfail": bool(how == "respond" and a.get("fail_at") is not None)},
         }
 
 def conn(msgs, c, prog=None, cuts=None, window=None, no_read=False, trailing=b"", trailing_cls=None, trailing_why="C10"):
@@ -168,7 +171,7 @@ def conn(msgs, c, prog=None, cuts=None, window=None, no_read=False, trailing=b""
         e = hs + len(trailing)
         cm.append({"hs": hs, "he": e, "be": e, "body_hex": "", "ishead": False})
         jm.append({"hs": hs, "he": e, "be": e, "cls": trailing_cls, "why": trailing_why, "last": False, "bk": "none", "blen": 0,
-                   "exp": False, "how": "respond", "st": 400, "rlen": 0, "nobody": False, "wflush": False, "noframe": False})
+                   "exp": False, "how": "respond", "st": 400, "rlen": 0, "nobody": False, "wflush": False, "noframe": False, "rfail": False})
     stream += trailing
     if prog is None:
         prog = [{"op": "send", "to": len(stream), "cuts": cuts or []}]
@@ -196,6 +199,13 @@ def respond(status=200, length=5, declared=True, thr=None, piece=0, **kw):
     p = {"ans": {"how": "respond", "status": status, "len": length, "declared": declared, "piece": piece}}
     if thr is not None:
         p["ans"]["thr"] = thr
+    p.update(kw)
+    return p
+
+def respond_failing(length, fail_at, how="err", status=200, **kw):
+    """respond() with a chunked response whose body reader fails (error or panic) after fail_at bytes"""
+    p = {"ans": {"how": "respond", "status": status, "len": length, "declared": False, "piece": 0,
+                 "fail_at": fail_at, "fail_panic": how == "panic"}}
     p.update(kw)
     return p
 
